@@ -26,6 +26,13 @@ Supported subset — nothing more:
     `for lock in self.resources.values():` whose body only assigns fields of `lock`;
   * an Optional[str] used where a str is required (`blocking=lock.owner`, `old_owner = self.owner` passed on) is
     translated with `.getD 0` and listed under "optional_as_value" in the extractor report.
+Seen through (no effect on the output): docstrings, comments, annotations, `logger.* / logging.* / print` calls,
+module- or class-level literal constants used by name, `list(..)` / `tuple(..)` snapshots for iteration and
+`list / tuple / set / frozenset` snapshots for membership tests, extra parameters with a literal default (bound to
+that default; a branch on a constant is pruned), private helper methods that are not themselves modelled (inlined
+at the call: statement helpers without `return <value>`, expression helpers consisting of one `return <expr>`), new
+methods nobody in the translated set calls.  A method that cannot be translated does not drag its callers along:
+they keep calling `Tr.<callee>`, so only the callee's agreement theorem fails.
 Natural-number fields (`hold_count`) use truncated subtraction: Python's `-1` is not representable and is only ever
 produced where the next statement resets the field.
 Anything else: the definition becomes `untranslatable "<construct (line)>"`, and its agreement theorem
@@ -93,6 +100,25 @@ class Tr:
                     self.classes[n.name] = {f.name: f for f in n.body if isinstance(f, ast.FunctionDef)}
         self.optional_as_value = []
         self.done = {}           # python method name -> True (translated) / False
+        self.consts = {}         # module-level / class-level literal constants: name -> value
+        for src in (types_src, ctrl_src):
+            tree = ast.parse(src)
+            scopes = [tree.body] + [n.body for n in tree.body if isinstance(n, ast.ClassDef)]
+            for body in scopes:
+                for n in body:
+                    tgt = val = None
+                    if isinstance(n, ast.Assign) and len(n.targets) == 1 and isinstance(n.targets[0], ast.Name):
+                        tgt, val = n.targets[0].id, n.value
+                    elif isinstance(n, ast.AnnAssign) and isinstance(n.target, ast.Name) and n.value is not None:
+                        tgt, val = n.target.id, n.value
+                    if tgt is not None:
+                        try:
+                            v = ast.literal_eval(val)
+                        except Exception:
+                            continue
+                        if v is None or isinstance(v, (bool, int)):
+                            self.consts[tgt] = v
+        self.inline_depth = 0
 
     # ------------------------------------------------------------------------------------------ helpers
     def coerce(self, code, t, want, node):
@@ -132,6 +158,8 @@ class Tr:
         if isinstance(n, ast.Name):
             if n.id in env["locals"]:
                 return env["locals"][n.id]
+            if n.id in self.consts:
+                return self.ex(ast.copy_location(ast.Constant(value=self.consts[n.id]), n), env)
             bad(n, f"name {n.id}")
         if isinstance(n, ast.Tuple) and len(n.elts) == 2:
             (a, ta), (b, tb) = self.ex(n.elts[0], env), self.ex(n.elts[1], env)
@@ -141,6 +169,9 @@ class Tr:
             if is_name(n.value, "LockResult") and n.attr in LOCKRESULT:
                 return LOCKRESULT[n.attr], "lockresult"
             base = n.value
+            if isinstance(base, ast.Name) and (base.id == "self" or base.id in self.classes) and n.attr in self.consts \
+                    and n.attr not in LOCK_FIELDS and n.attr.isupper():
+                return self.ex(ast.copy_location(ast.Constant(value=self.consts[n.attr]), n), env)
             if isinstance(base, ast.Name):
                 lv = env["locals"].get(base.id)
                 if base.id == "self" and k == "lock" or (lv and lv[1] == "lockref"):
@@ -181,6 +212,34 @@ class Tr:
             return self.compare(n.left, n.ops[0], n.comparators[0], env, n), "bool"
         if isinstance(n, ast.ListComp):
             return self.listcomp(n, env)
+        if isinstance(n, ast.Call) and not n.keywords:
+            f = n.func
+            # d.keys()
+            if isinstance(f, ast.Attribute) and f.attr == "keys" and not n.args:
+                c, t = self.ex(f.value, env)
+                if t in ("dict", "keyset", "snap:dict", "snap:keyset"):
+                    return c, t
+                bad(n, f".keys() of {t}")
+            # list(..) / tuple(..) / set(..) / frozenset(..) of a modelled container: a snapshot, usable for `in` only
+            if isinstance(f, ast.Name) and f.id in ("list", "tuple", "set", "frozenset") and len(n.args) == 1:
+                c, t = self.ex(n.args[0], env)
+                base = t[5:] if t.startswith("snap:") else t
+                if base in ("dict", "keyset", "deplist", "wlist"):
+                    return c, "snap:" + base
+                bad(n, f"{f.id}(...) of {t}")
+            # expression helper: a private method consisting of one `return <expr>`
+            if isinstance(f, ast.Attribute) and is_name(f.value, "self") and not n.args:
+                cls = {"lock": "ResourceLock", "graph": "DependencyGraph", "ctrl": "CellCycleController"}.get(env["kind"])
+                fn = self.classes.get(cls, {}).get(f.attr)
+                if fn is not None and f.attr not in SPEC:
+                    body = [s for s in fn.body if not (isinstance(s, ast.Expr) and isinstance(s.value, ast.Constant))]
+                    if len(body) == 1 and isinstance(body[0], ast.Return) and body[0].value is not None \
+                            and len(fn.args.args) == 1 and self.inline_depth < 4:
+                        self.inline_depth += 1
+                        try:
+                            return self.ex(body[0].value, env)
+                        finally:
+                            self.inline_depth -= 1
         bad(n, f"expression {type(n).__name__}: {ast.unparse(n)[:60]}")
 
     def ex_subst(self, expr, env, var):
@@ -204,6 +263,8 @@ class Tr:
             return f"(({ca}).isNone)" if isinstance(op, ast.Is) else f"(({ca}).isSome)"
         if isinstance(op, (ast.In, ast.NotIn)):
             neg = "!" if isinstance(op, ast.NotIn) else ""
+            if tb.startswith("snap:"):
+                tb = tb[5:]
             if tb == "dict":
                 return f"({neg}(dictHas {cb} {self.coerce(ca, ta, 'nat', node)}))"
             if tb == "keyset":
@@ -337,7 +398,7 @@ class Tr:
             # `if rid not in self.resources: raise ...` opens the scope in which self.resources[rid] exists
             t = st.test
             if (k == "ctrl" and isinstance(t, ast.Compare) and len(t.ops) == 1 and isinstance(t.ops[0], ast.NotIn)
-                    and is_attr(t.comparators[0], "self", "resources") and not st.orelse):
+                    and self.strip_snapshot(t.comparators[0]) == "self.resources" and not st.orelse):
                 kc, kt = self.ex(t.left, env)
                 key = self.coerce(kc, kt, "nat", t)
                 body = self.block(st.body, env, ind + 1, lambda e: (_ for _ in ()).throw(Unsupported("guard on self.resources must raise or return")))
@@ -346,6 +407,12 @@ class Tr:
                 return (f"{pad}match s.locks {key} with\n{pad}| none =>\n{body}\n{pad}| some {var} =>\n"
                         + self.block(rest, env2, ind + 1, fin))
             c = self.truth(*self.ex(t, env), t)
+            if c == "true":                       # a branch on a constant (a new parameter at its default)
+                return self.block(st.body + rest, env, ind, fin)
+            if c in ("false", "(!true)"):
+                return self.block(st.orelse + rest, env, ind, fin)
+            if c == "(!false)":
+                return self.block(st.body + rest, env, ind, fin)
             a = self.block(st.body + rest, env, ind + 1, fin)
             b = self.block(st.orelse + rest, env, ind + 1, fin)
             return f"{pad}if {c} then\n{a}\n{pad}else\n{b}"
@@ -442,8 +509,9 @@ class Tr:
             c, t = self.ex(value, env)
             if t == "lit":
                 t = "nat"
-            env2 = dict(env, locals=dict(env["locals"], **{target.id: (f"v_{target.id}", t)}))
-            return f"{pad}let v_{target.id} := {c}\n" + self.block(rest, env2, ind, fin)
+            vn = f"v_{env.get('pfx', '')}{target.id}"
+            env2 = dict(env, locals=dict(env["locals"], **{target.id: (vn, t)}))
+            return f"{pad}let {vn} := {c}\n" + self.block(rest, env2, ind, fin)
         bad(st, f"assignment to {ast.unparse(target)}")
 
     def kwargs(self, call, names, node):
@@ -464,6 +532,15 @@ class Tr:
         pad = "  " * ind
         k = env["kind"]
         f = call.func
+        root = f
+        while isinstance(root, (ast.Attribute, ast.Call)):
+            root = root.value if isinstance(root, ast.Attribute) else root.func
+        if isinstance(root, ast.Name) and root.id in ("logger", "logging", "log", "_logger", "_log", "LOGGER", "print", "warnings") \
+                and result_name is None:
+            for sub in ast.walk(call):       # the arguments must not do anything
+                if isinstance(sub, ast.Call) and sub is not call and not (isinstance(sub.func, ast.Name) and sub.func.id in ("str", "repr", "len")):
+                    bad(st, "call inside a logging call")
+            return self.block(rest, env, ind, fin)
         if not isinstance(f, ast.Attribute):
             bad(st, f"call {ast.unparse(f)}")
         m = f.attr
@@ -535,7 +612,63 @@ class Tr:
             key = env["lockrefs"][lk[0]]
             return (f"{pad}let c : Ctx := {{ c with acquired := addKey c.acquired {key} }}\n{pad}let s : Sys := s.setCtx c\n"
                     + self.block(rest, env, ind, fin))
+        # private helper of the same class that is not itself modelled: inline its body
+        if is_name(recv, "self") and m not in SPEC and result_name is None:
+            cls = {"lock": "ResourceLock", "graph": "DependencyGraph", "ctrl": "CellCycleController"}.get(k)
+            fn = self.classes.get(cls, {}).get(m)
+            if fn is not None and self.inline_depth < 4:
+                return self.inline_helper(fn, call, st, rest, env, ind, fin)
         bad(st, f"call {ast.unparse(f)}(...)")
+
+    def inline_helper(self, fn, call, st, rest, env, ind, fin):
+        a = fn.args
+        if a.vararg or a.kwarg or a.posonlyargs or fn.decorator_list:
+            bad(st, f"signature of helper {fn.name}")
+        body = [s for s in fn.body if not (isinstance(s, ast.Expr) and isinstance(s.value, ast.Constant))]
+        if body and isinstance(body[-1], ast.Return) and (body[-1].value is None or (isinstance(body[-1].value, ast.Constant) and body[-1].value.value is None)):
+            body = body[:-1]
+        for sub in ast.walk(ast.Module(body=body, type_ignores=[])):
+            if isinstance(sub, (ast.Return, ast.Raise)):
+                bad(st, f"helper {fn.name} returns / raises in the middle")
+        names = [x.arg for x in a.args[1:]] + [x.arg for x in a.kwonlyargs]
+        defaults = dict(zip([x.arg for x in a.args[1:]][len(a.args) - 1 - len(a.defaults):], a.defaults))
+        defaults.update({x.arg: d for x, d in zip(a.kwonlyargs, a.kw_defaults) if d is not None})
+        given = {n: v for n, v in zip(names, call.args)}
+        for kw in call.keywords:
+            if kw.arg is None or kw.arg not in names or kw.arg in given:
+                bad(st, f"argument {kw.arg} of helper {fn.name}")
+            given[kw.arg] = kw.value
+        pad = "  " * ind
+        out = ""
+        locs = {}
+        pfx = f"h{self.inline_depth}_{fn.name.lstrip('_')}_"
+        for n in names:
+            v = given.get(n, defaults.get(n))
+            if v is None:
+                bad(st, f"missing argument {n} of helper {fn.name}")
+            if isinstance(v, ast.Name) and v.id in env["locals"] and env["locals"][v.id][1] in ("ctx", "lockref"):
+                locs[n] = env["locals"][v.id]
+                continue
+            c, t = self.ex(v, env)
+            if t == "lit":
+                t = "nat"
+            if t in ("nat", "int", "bool", "onat", "lockresult") or t.startswith("pair:"):
+                out += f"{pad}let v_{pfx}{n} := {c}\n"
+                locs[n] = (f"v_{pfx}{n}", t)
+            elif t == "none":
+                locs[n] = ("none", "none")
+            else:
+                bad(st, f"argument of type {t} to helper {fn.name}")
+        lockrefs = dict(env["lockrefs"])
+        env2 = dict(env, locals=locs, pfx=pfx, lockrefs=lockrefs, caller=(rest, env, fin))
+        self.inline_depth += 1
+        try:
+            # the helper's statements, then the caller's remaining statements with the caller's own names
+            def after(e):
+                return self.block(rest, dict(env, lockrefs=e["lockrefs"]), 0, fin).lstrip()
+            return out + self.block(body, env2, ind, after)
+        finally:
+            self.inline_depth -= 1
 
     def check_add_acquired(self):
         fn = self.classes.get("OperationContext", {}).get("add_acquired_resource")
@@ -549,8 +682,8 @@ class Tr:
             bad(fn, "add_acquired_resource is not `self.acquired_resources[lock.resource_id] = lock`")
 
     def need(self, m, node):
-        if self.done.get(m) is False:
-            bad(node, f"calls the untranslatable method {m}")
+        """a caller of an untranslatable method still calls `Tr.<callee>`: only the callee's theorem fails"""
+        return
 
     def args_for(self, m, call, env, node):
         names = [p for p, t in SPEC[m][2] if t != "ctx"]
@@ -571,6 +704,13 @@ class Tr:
         if st.orelse or not isinstance(st.target, ast.Name):
             bad(st, "for loop shape")
         it = ast.unparse(st.iter)
+        for w in ("list(", "tuple("):             # a snapshot is a snapshot
+            if it.startswith(w) and it.endswith(")"):
+                it = "list(" + it[len(w):-1] + ")"
+        if it.startswith("list(") and not it.endswith(".keys())") and not it.endswith(".values())"):
+            it = it[:-1] + ".keys())"             # iterating a dict is iterating its keys
+        if it == "list(self.resources.values())":
+            it = "self.resources.values()"
         v = st.target.id
         if k == "graph" and it == "list(self.edges.keys())":
             env2 = dict(env, locals=dict(env["locals"], **{v: (f"v_{v}", "nat")}), noreturn=True)
@@ -632,22 +772,56 @@ class Tr:
         if fn is None:
             raise Unsupported(f"{cls}.{m} not found")
         a = fn.args
-        if a.vararg or a.kwarg or a.kwonlyargs or a.posonlyargs or fn.decorator_list or a.defaults and m != "try_acquire":
+        if a.vararg or a.kwarg or a.posonlyargs or fn.decorator_list:
             bad(fn, f"signature of {m}")
-        got = []
-        for arg in a.args[1:]:
-            src = ast.unparse(arg.annotation).replace(" ", "") if arg.annotation is not None else ""
-            got.append((arg.arg, ANNOT.get(src)))
-        if got != params:
-            bad(fn, f"signature {got} differs from the modelled one {params}")
+        names = [arg.arg for arg in a.args[1:]]
+        want = [n for n, _ in params]
+        if names[:len(want)] != want:
+            bad(fn, f"parameters {names} differ from the modelled ones {want}")
+        # extra parameters must have a literal default: the translated callers never pass them
+        extra = {}
+        pos_defaults = dict(zip(names[len(names) - len(a.defaults):], a.defaults))
+        for n in names[len(want):]:
+            if n not in pos_defaults:
+                bad(fn, f"new parameter {n} without default")
+            extra[n] = pos_defaults[n]
+        for arg, d in zip(a.kwonlyargs, a.kw_defaults):
+            if d is None:
+                bad(fn, f"new keyword-only parameter {arg.arg} without default")
+            extra[arg.arg] = d
         kind = {"ResourceLock": "lock", "DependencyGraph": "graph", "CellCycleController": "ctrl"}[cls]
         locs = {}
         for name, t in params:
             locs[name] = ("c", "ctx") if t == "ctx" else (f"p_{name}", t)
+        for name, d in extra.items():
+            try:
+                v = ast.literal_eval(d)
+            except Exception:
+                bad(fn, f"default of new parameter {name} is not a literal")
+            if v is None:
+                locs[name] = ("none", "none")
+            elif isinstance(v, bool):
+                locs[name] = ("true" if v else "false", "bool")
+            elif isinstance(v, int):
+                locs[name] = (str(v), "lit")
+            else:
+                bad(fn, f"default of new parameter {name}")
         env = {"kind": kind, "mode": kind, "locals": locs, "result": result, "lockrefs": {}, "registered": {}, "inkeys": {}}
         body = list(fn.body)
         # `if rid not in ctx.acquired_resources: return False` opens the scope in which ctx.acquired_resources[rid] exists
         return self.block_with_key_guard(body, env)
+
+    @staticmethod
+    def strip_snapshot(n):
+        """source text of a container expression without list/tuple/set/frozenset(...) and .keys() around it"""
+        while True:
+            if isinstance(n, ast.Call) and isinstance(n.func, ast.Name) and n.func.id in ("list", "tuple", "set", "frozenset") \
+                    and len(n.args) == 1 and not n.keywords:
+                n = n.args[0]
+            elif isinstance(n, ast.Call) and isinstance(n.func, ast.Attribute) and n.func.attr == "keys" and not n.args:
+                n = n.func.value
+            else:
+                return ast.unparse(n)
 
     def block_with_key_guard(self, body, env):
         def fin(e):
@@ -657,7 +831,7 @@ class Tr:
         stmts = [s for s in body if not (isinstance(s, ast.Expr) and isinstance(s.value, ast.Constant))]
         if (env["kind"] == "ctrl" and stmts and isinstance(stmts[0], ast.If) and not stmts[0].orelse
                 and isinstance(stmts[0].test, ast.Compare) and isinstance(stmts[0].test.ops[0], ast.NotIn)
-                and ast.unparse(stmts[0].test.comparators[0]).endswith(".acquired_resources")
+                and self.strip_snapshot(stmts[0].test.comparators[0]).endswith(".acquired_resources")
                 and len(stmts[0].body) == 1 and isinstance(stmts[0].body[0], ast.Return)):
             t = stmts[0].test
             kc, kt = self.ex(t.left, env)
@@ -699,6 +873,9 @@ def render(types_src: str, ctrl_src: str):
                 tr.done[m] = False
             except RecursionError:
                 info["unsupported"][m] = "recursion"
+                tr.done[m] = False
+            except Exception as e:  # noqa  (a translator bug must fail closed for this method only)
+                info["unsupported"][m] = f"translator error {type(e).__name__}: {e}"
                 tr.done[m] = False
         state = {"ResourceLock": "(l : Lock)", "DependencyGraph": "(E : Edges)"}.get(cls)
         if state is None:
